@@ -188,7 +188,8 @@ def _run_case(case, ctx):
         L = ref.L
         fs = L[1:1 + len(fshape)]
         if g == "cp_regressor":
-            oshape = gen.choice(rs, [[], [], [int(rs.randint(1, 4))]])
+            oshape = gen.choice(rs, [[], [], [int(rs.randint(1, 4))], [int(rs.randint(1, 4)), int(rs.randint(1, 4))],
+                                     [int(rs.randint(1, 4)), int(rs.randint(2, 4)), int(rs.randint(2, 4))]])      # tensor-valued targets of any order
             rank = int(rs.randint(1, 4))
             y = rs.standard_normal([n] + oshape)
             mk = lambda it: CPRegressor(weight_rank=rank, tol=0, reg_W=reg, n_iter_max=it, random_state=seed, verbose=0)
